@@ -130,6 +130,7 @@ def extra_checks(tier, seed):
         rng = random.Random('C01a-%d-%d' % (seed, i))
         c = flat.trim_flat(flat.gen_case(rng, malformed=False, p_unknown=0.0))
         c['cls'] = ['AsyncMachine', 'AsyncGraphMachine'][i % 2]
+        c['awaitables'] = 1     # callbacks: plain / coroutine / plain function returning a Task
         c['env'] = dict(default=c['env']['default'], bypos={p: (r[0], None, []) for p, r in c['env']['bypos'].items()},
                         bycb={k: (r[0], None, []) for k, r in c['env']['bycb'].items()})
         cases.append(c)
